@@ -87,17 +87,22 @@ theorem sumNat_items_mod4 (items : List Item) :
   | nil => rfl
   | cons it items ih => simp only [List.map_cons, sumNat]; omega
 
+/-- the header struct the writer's first 36 bytes decode to -/
+def writtenHeader (z : Sizes) (ver : Nat) : Header :=
+  { magic := magicData, version := (ver : Int), size := ((z.total ver - 16 : Nat) : Int),
+    swaplen := ((z.total ver - 16 - z.sizeData : Nat) : Int), numItemTypes := z.nTypes,
+    numItems := z.nItems, numData := z.nData, sizeItems := z.sizeItems, sizeData := z.sizeData }
+
 /-- **The writer's header is accepted.**  For versions 3 and 4 and any item/data set whose file
 stays below 2 GiB, `Header::read` on the written file succeeds with the counts and sizes of what
 was written, and `check_size_and_swaplen` accepts the `size`/`swaplen` fields as the *non-crude*
 variant with `expected_size` = the writer's total. -/
-theorem writer_header_accepted (ver : Nat) (hv : ver = 3 ∨ ver = 4)
+theorem writer_header_explicit (ver : Nat) (hv : ver = 3 ∨ ver = 4)
     (deflate : List UInt8 → List UInt8) (items : List Item) (datas : List (List UInt8))
     (hmax : (sizesOf ver deflate items datas).total ver ≤ 2147483647) :
-    ∃ h, Header.read (writeDf ver deflate items datas) = .ok h
-      ∧ h.version = ver ∧ h.numItems = items.length ∧ h.numData = datas.length
-      ∧ h.numItemTypes = (groupTypes items 0).length
-      ∧ h.checkSizeAndSwaplen
+    Header.read (writeDf ver deflate items datas)
+        = .ok (writtenHeader (sizesOf ver deflate items datas) ver)
+      ∧ (writtenHeader (sizesOf ver deflate items datas) ver).checkSizeAndSwaplen
           = .ok { expectedSize := ((sizesOf ver deflate items datas).total ver : Nat), crude := false } := by
   obtain ⟨tail, hfile⟩ := writeDf_eq_header_append ver deflate items datas
   generalize hz : sizesOf ver deflate items datas = z at *
@@ -130,10 +135,8 @@ theorem writer_header_accepted (ver : Nat) (hv : ver = 3 ∨ ver = 4)
   have hnt : z.nTypes = (groupTypes items 0).length := by rw [← hz]; rfl
   have hni : z.nItems = items.length := by rw [← hz]; rfl
   have hnd : z.nData = datas.length := by rw [← hz]; rfl
-  refine ⟨{ magic := magicData, version := (ver : Int), size := ((z.total ver - 16 : Nat) : Int),
-            swaplen := ((z.total ver - 16 - z.sizeData : Nat) : Int), numItemTypes := z.nTypes,
-            numItems := z.nItems, numData := z.nData, sizeItems := z.sizeItems, sizeData := z.sizeData },
-    ?_, rfl, by simp only [hni], by simp only [hnd], by simp only [hnt], ?_⟩
+  unfold writtenHeader
+  refine ⟨?_, ?_⟩
   · unfold Header.read
     simp only [htake, hlen, Nat.sub_self, List.replicate_zero, List.append_nil, hbuf]
     rw [if_neg (by simp [headerSize])]
@@ -185,6 +188,18 @@ theorem writer_header_accepted (ver : Nat) (hv : ver = 3 ∨ ver = 4)
     omega
 
 
+
+/-- **The writer's header is accepted** (existential form). -/
+theorem writer_header_accepted (ver : Nat) (hv : ver = 3 ∨ ver = 4)
+    (deflate : List UInt8 → List UInt8) (items : List Item) (datas : List (List UInt8))
+    (hmax : (sizesOf ver deflate items datas).total ver ≤ 2147483647) :
+    ∃ h, Header.read (writeDf ver deflate items datas) = .ok h
+      ∧ h.version = ver ∧ h.numItems = items.length ∧ h.numData = datas.length
+      ∧ h.numItemTypes = (groupTypes items 0).length
+      ∧ h.checkSizeAndSwaplen
+          = .ok { expectedSize := ((sizesOf ver deflate items datas).total ver : Nat), crude := false } :=
+  ⟨_, (writer_header_explicit ver hv deflate items datas hmax).1, rfl, rfl, rfl, rfl,
+    (writer_header_explicit ver hv deflate items datas hmax).2⟩
 
 /-! ### running sums, offsets, windows of a concatenation -/
 
@@ -918,6 +933,337 @@ theorem writtenReader_check (ver : Nat) (deflate : List UInt8 → List UInt8) (i
   have hb := h16 items[k] (List.getElem_mem hkN)
   rw [headerTypeId_itemHdrR hb.1 hb.2, ← hty]
   omega
+
+
+
+
+/-! ### `Reader::new` on the written file -/
+
+def typeWords (types : List ItemType) : List Int := types.flatMap (fun t => [t.typeId, t.start, t.num])
+
+theorem writeDf_layout (ver : Nat) (deflate : List UInt8 → List UInt8) (items : List Item)
+    (datas : List (List UInt8)) :
+    writeDf ver deflate items datas =
+      (magicData ++ bytesOfWords ((sizesOf ver deflate items datas).headerWords ver)) ++
+      (bytesOfWords (typeWords (groupTypes items 0)) ++
+      (bytesOfWords ((offsetsFrom 0 (items.map itemByteSize)).map (fun (n : Nat) => (n : Int))) ++
+      (bytesOfWords ((offsetsFrom 0 ((storedOf ver deflate datas).map List.length)).map
+          (fun (n : Nat) => (n : Int))) ++
+      ((if ver = 3 then [] else bytesOfWords (datas.map (fun d => ((d.length : Nat) : Int)))) ++
+      (bytesOfWords (items.flatMap itemWords) ++ (storedOf ver deflate datas).flatten))))) := by
+  unfold writeDf
+  simp only [List.append_assoc]
+  rw [concatBytes_items, concatBytes_eq_flatten]
+  rfl
+
+theorem typesOfWords_typeWords : ∀ (ts : List ItemType), typesOfWords (typeWords ts) = ts
+  | [] => rfl
+  | t :: ts => by
+    simp only [typeWords, List.flatMap_cons, List.cons_append, List.nil_append, typesOfWords]
+    congr 1
+    exact typesOfWords_typeWords ts
+
+theorem typeWords_length (ts : List ItemType) : (typeWords ts).length = 3 * ts.length := by
+  induction ts with
+  | nil => rfl
+  | cons t ts ih => simp only [typeWords, List.flatMap_cons, List.length_append, List.length_cons,
+      List.length_nil] at ih ⊢; omega
+
+theorem readExact_of_length {n : Nat} {a rest : List UInt8} (h : a.length = n) :
+    readExact n (a ++ rest) = some (a, rest) := by
+  subst h; exact readExact_append a rest
+
+
+theorem offsetsFrom_le : ∀ (ls : List Nat) (o x : Nat), x ∈ offsetsFrom o ls → x ≤ o + sumNat ls
+  | [], _, _, h => by simp [offsetsFrom] at h
+  | l :: ls, o, x, h => by
+    simp only [offsetsFrom, List.mem_cons] at h
+    simp only [sumNat]
+    rcases h with rfl | h
+    · omega
+    · have := offsetsFrom_le ls (o + l) x h; omega
+
+theorem flatMap_itemWords_length (items : List Item) :
+    4 * (items.flatMap itemWords).length = sumNat (items.map itemByteSize) := by
+  induction items with
+  | nil => rfl
+  | cons it items ih =>
+    simp only [List.flatMap_cons, List.length_append, List.map_cons, sumNat, itemByteSize, itemWords,
+      List.length_cons] at ih ⊢
+    omega
+
+theorem itemByteSize_le_sum {items : List Item} {it : Item} (h : it ∈ items) :
+    itemByteSize it ≤ sumNat (items.map itemByteSize) := by
+  induction items with
+  | nil => cases h
+  | cons x items ih =>
+    simp only [List.map_cons, sumNat]
+    cases h with
+    | head => omega
+    | tail _ hm => have := ih hm; omega
+
+theorem flatMap_itemWords_wrap (items : List Item)
+    (hw : ∀ it ∈ items, ∀ w ∈ it.data, InI32 w)
+    (hs : sumNat (items.map itemByteSize) ≤ 2147483647) :
+    (items.flatMap itemWords).map wrapI32 = (items.map itemWordsR).flatten := by
+  induction items with
+  | nil => rfl
+  | cons it items ih =>
+    have h1 : itemByteSize it ≤ 2147483647 := by
+      have := itemByteSize_le_sum (items := it :: items) (List.mem_cons_self ..); omega
+    simp only [List.map_cons, sumNat] at hs
+    simp only [List.flatMap_cons, List.map_append, List.map_cons, List.flatten_cons]
+    rw [itemWords_wrap (hw it (List.mem_cons_self ..)) (by unfold itemByteSize at h1; omega),
+      ih (fun it' h' => hw it' (List.mem_cons_of_mem _ h')) (by omega)]
+
+/-- what the writer accepts: the preconditions of the round trip -/
+structure Writable (ver : Nat) (deflate : List UInt8 → List UInt8) (items : List Item)
+    (datas : List (List UInt8)) : Prop where
+  version : ver = 3 ∨ ver = 4
+  ids : ∀ it ∈ items, it.typeId < 65536 ∧ it.id < 65536
+  words : ∀ it ∈ items, ∀ w ∈ it.data, InI32 w
+  sorted : items.Pairwise (fun a b => a.typeId ≤ b.typeId)
+  total : (sizesOf ver deflate items datas).total ver ≤ 2147483647
+  dataLen : ∀ d ∈ datas, d.length ≤ 2147483647
+
+theorem storedOf_length (ver : Nat) (deflate : List UInt8 → List UInt8) (datas : List (List UInt8)) :
+    (storedOf ver deflate datas).length = datas.length := by
+  unfold storedOf; split <;> simp
+
+
+/-- **`Reader::new` on a written file yields exactly the writer's tables.** -/
+theorem new_writeDf (ver : Nat) (deflate : List UInt8 → List UInt8) (items : List Item)
+    (datas : List (List UInt8)) (wr : Writable ver deflate items datas) :
+    Reader.new (writeDf ver deflate items datas) = .ok (writtenReader ver deflate items datas) := by
+  obtain ⟨hread, hcheck⟩ := writer_header_explicit ver wr.version deflate items datas wr.total
+  have hz : (sizesOf ver deflate items datas).total ver
+      = 36 + 12 * (groupTypes items 0).length + 4 * items.length + 4 * datas.length
+        + (if ver = 3 then 0 else 4 * datas.length) + sumNat (items.map itemByteSize)
+        + sumNat ((storedOf ver deflate datas).map List.length) := rfl
+  have htot := wr.total
+  rw [hz] at htot
+  have hN : items.length ≤ 2147483647 := by omega
+  have hsi : sumNat (items.map itemByteSize) ≤ 2147483647 := by omega
+  have hsd : sumNat ((storedOf ver deflate datas).map List.length) ≤ 2147483647 := by omega
+  have hslen := storedOf_length ver deflate datas
+  -- every table word fits an i32
+  have hck := checkTypes_groupTypes items.length hN items 0 none [] wr.sorted (fun it h => (wr.ids it h).1)
+    (by simp) (fun p hp => by cases hp) (fun s hs => by cases hs)
+  have htok := checkTypes_ok (items.length : Int) _ _ _ _ (by simp) hck
+  have hTin : ∀ w ∈ typeWords (groupTypes items 0), InI32 w := by
+    intro w hw
+    simp only [typeWords, List.mem_flatMap] at hw
+    obtain ⟨t, ht, hw⟩ := hw
+    obtain ⟨a1, a2, a3, a4, a5⟩ := htok t ht
+    simp only [List.mem_cons, List.mem_nil_iff, or_false] at hw
+    unfold InI32
+    rcases hw with rfl | rfl | rfl <;> omega
+  have hIOin : ∀ w ∈ (offsetsFrom 0 (items.map itemByteSize)).map (fun (n : Nat) => (n : Int)), InI32 w := by
+    intro w hw
+    simp only [List.mem_map] at hw
+    obtain ⟨x, hx, rfl⟩ := hw
+    have := offsetsFrom_le _ _ _ hx
+    unfold InI32; omega
+  have hDOin : ∀ w ∈ (offsetsFrom 0 ((storedOf ver deflate datas).map List.length)).map
+      (fun (n : Nat) => (n : Int)), InI32 w := by
+    intro w hw
+    simp only [List.mem_map] at hw
+    obtain ⟨x, hx, rfl⟩ := hw
+    have := offsetsFrom_le _ _ _ hx
+    unfold InI32; omega
+  have hSZin : ∀ w ∈ datas.map (fun d => ((d.length : Nat) : Int)), InI32 w := by
+    intro w hw
+    simp only [List.mem_map] at hw
+    obtain ⟨d, hd, rfl⟩ := hw
+    have := wr.dataLen d hd
+    unfold InI32; omega
+  -- lengths of the parts
+  have lT : (bytesOfWords (typeWords (groupTypes items 0))).length
+      = 12 * asUsize (((groupTypes items 0).length : Nat) : Int) := by
+    rw [bytesOfWords_length, typeWords_length, asUsize_nonneg (by omega)]; omega
+  have lIO : (bytesOfWords ((offsetsFrom 0 (items.map itemByteSize)).map (fun (n : Nat) => (n : Int)))).length
+      = 4 * asUsize ((items.length : Nat) : Int) := by
+    rw [bytesOfWords_length, List.length_map, offsetsFrom_length, List.length_map,
+      asUsize_nonneg (by omega)]; omega
+  have lDO : (bytesOfWords ((offsetsFrom 0 ((storedOf ver deflate datas).map List.length)).map
+      (fun (n : Nat) => (n : Int)))).length = 4 * asUsize ((datas.length : Nat) : Int) := by
+    rw [bytesOfWords_length, List.length_map, offsetsFrom_length, List.length_map, hslen,
+      asUsize_nonneg (by omega)]; omega
+  have lSZ : (bytesOfWords (datas.map (fun d => ((d.length : Nat) : Int)))).length
+      = 4 * asUsize ((datas.length : Nat) : Int) := by
+    rw [bytesOfWords_length, List.length_map, asUsize_nonneg (by omega)]; omega
+  have lIT : (bytesOfWords (items.flatMap itemWords)).length
+      = 4 * (asUsize ((sumNat (items.map itemByteSize) : Nat) : Int) / 4) := by
+    rw [bytesOfWords_length, asUsize_nonneg (by omega)]
+    have := flatMap_itemWords_length items
+    omega
+  have lST : ((storedOf ver deflate datas).flatten).length
+      = sumNat ((storedOf ver deflate datas).map List.length) := sumNat_map_length_flatten _
+  have lH : (magicData ++ bytesOfWords ((sizesOf ver deflate items datas).headerWords ver)).length
+      = headerSize := by
+    simp [magicData, bytesOfWords_length, Sizes.headerWords, headerSize]
+  have hmod4 := sumNat_items_mod4 items
+  have key : ∀ R : Reader, R = writtenReader ver deflate items datas →
+      (match R.check with
+        | .ok () => Outcome.ok R
+        | .err e => Outcome.err e
+        | .panic s => Outcome.panic s) = .ok (writtenReader ver deflate items datas) := by
+    intro R hR
+    subst hR
+    rw [writtenReader_check ver deflate items datas wr.ids wr.sorted hN]
+  have hfilelen : ¬ ((magicData ++ bytesOfWords ((sizesOf ver deflate items datas).headerWords ver) ++
+      (bytesOfWords (typeWords (groupTypes items 0)) ++
+        (bytesOfWords ((offsetsFrom 0 (items.map itemByteSize)).map (fun (n : Nat) => (n : Int))) ++
+          (bytesOfWords ((offsetsFrom 0 ((storedOf ver deflate datas).map List.length)).map
+              (fun (n : Nat) => (n : Int))) ++
+            ((if ver = 3 then [] else bytesOfWords (datas.map (fun d => ((d.length : Nat) : Int)))) ++
+              (bytesOfWords (items.flatMap itemWords) ++ (storedOf ver deflate datas).flatten)))))).length
+      < (((sizesOf ver deflate items datas).total ver : Nat) : Int).toNat) := by
+    simp only [List.length_append, lH, lT, lIO, lDO, lIT, lST]
+    rw [hz]
+    have e1 : asUsize (((groupTypes items 0).length : Nat) : Int) = (groupTypes items 0).length := by
+      rw [asUsize_nonneg (by omega)]; omega
+    have e2 : asUsize ((items.length : Nat) : Int) = items.length := by
+      rw [asUsize_nonneg (by omega)]; omega
+    have e3 : asUsize ((datas.length : Nat) : Int) = datas.length := by
+      rw [asUsize_nonneg (by omega)]; omega
+    have e4 : asUsize ((sumNat (items.map itemByteSize) : Nat) : Int) = sumNat (items.map itemByteSize) := by
+      rw [asUsize_nonneg (by omega)]; omega
+    rw [e1, e2, e3, e4]
+    have hmod4' : sumNat (items.map itemByteSize) % 4 = 0 := hmod4
+    split
+    · simp only [List.length_nil, headerSize]; omega
+    · rw [lSZ, e3]; simp only [headerSize]; omega
+  have hal : ¬ asUsize ((sumNat (items.map itemByteSize) : Nat) : Int) % 4 ≠ 0 := by
+    have hm : sumNat (items.map itemByteSize) % 4 = 0 := hmod4
+    rw [asUsize_nonneg (by omega)]; omega
+  -- run `Reader::new`
+  unfold Reader.new
+  rw [hread]
+  simp only
+  rw [hcheck]
+  simp only
+  rw [writeDf_layout]
+  rw [List.drop_left' lH]
+  have pv : (writtenHeader (sizesOf ver deflate items datas) ver).version = (ver : Int) := rfl
+  have pnt : (writtenHeader (sizesOf ver deflate items datas) ver).numItemTypes
+      = (((groupTypes items 0).length : Nat) : Int) := rfl
+  have pni : (writtenHeader (sizesOf ver deflate items datas) ver).numItems = ((items.length : Nat) : Int) := rfl
+  have pnd : (writtenHeader (sizesOf ver deflate items datas) ver).numData = ((datas.length : Nat) : Int) := rfl
+  have psi : (writtenHeader (sizesOf ver deflate items datas) ver).sizeItems
+      = ((sumNat (items.map itemByteSize) : Nat) : Int) := rfl
+  have psd : (writtenHeader (sizesOf ver deflate items datas) ver).sizeData
+      = ((sumNat ((storedOf ver deflate datas).map List.length) : Nat) : Int) := rfl
+  rw [pv, pnt, pni, pnd, psi, psd]
+  rw [if_neg (by rcases wr.version with h | h <;> subst h <;> simp)]
+  rw [readExact_of_length lT]
+  simp only
+  rw [readExact_of_length lIO]
+  simp only
+  rw [readExact_of_length lDO]
+  simp only
+  rcases wr.version with h | h
+  · subst h
+    have hu : readUds (if ((3 : Nat) : Int) = 3 then Version.v3 else if false = true then Version.v4crude
+        else Version.v4).hasCompressedData (4 * asUsize ((datas.length : Nat) : Int))
+        ((if 3 = 3 then [] else bytesOfWords (datas.map (fun d => ((d.length : Nat) : Int)))) ++
+          (bytesOfWords (items.flatMap itemWords) ++ (storedOf 3 deflate datas).flatten))
+        = some (none, bytesOfWords (items.flatMap itemWords) ++ (storedOf 3 deflate datas).flatten) := by
+      simp [readUds, Version.hasCompressedData]
+    rw [hu]
+    simp only
+    rw [if_neg hal]
+    rw [readExact_of_length lIT]
+    simp only
+    rw [if_neg (by first | exact hfilelen | simpa using hfilelen)]
+    refine key _ ?_
+    unfold writtenReader
+    simp only [Reader.mk.injEq]
+    refine ⟨by simp, trivial, trivial, trivial, trivial, trivial, ?_, ?_, ?_, by simp, ?_, trivial⟩
+    · rw [wordsOfBytes_bytesOfWords _ hTin, typesOfWords_typeWords]
+    · rw [wordsOfBytes_bytesOfWords _ hIOin]
+    · rw [wordsOfBytes_bytesOfWords _ hDOin]
+    · rw [wordsOfBytes_bytesOfWords_wrap, flatMap_itemWords_wrap items wr.words hsi]
+  · subst h
+    have hu : readUds (if ((4 : Nat) : Int) = 3 then Version.v3 else if false = true then Version.v4crude
+        else Version.v4).hasCompressedData (4 * asUsize ((datas.length : Nat) : Int))
+        ((if 4 = 3 then [] else bytesOfWords (datas.map (fun d => ((d.length : Nat) : Int)))) ++
+          (bytesOfWords (items.flatMap itemWords) ++ (storedOf 4 deflate datas).flatten))
+        = some (some (bytesOfWords (datas.map (fun d => ((d.length : Nat) : Int)))),
+            bytesOfWords (items.flatMap itemWords) ++ (storedOf 4 deflate datas).flatten) := by
+      have : (if ((4 : Nat) : Int) = 3 then Version.v3 else if false = true then Version.v4crude
+        else Version.v4).hasCompressedData = true := by simp [Version.hasCompressedData]
+      rw [this]
+      simp only [readUds, if_true]
+      rw [if_neg (by decide), readExact_of_length lSZ]
+    rw [hu]
+    simp only
+    rw [if_neg hal]
+    rw [readExact_of_length lIT]
+    simp only
+    rw [if_neg (by first | exact hfilelen | simpa using hfilelen)]
+    refine key _ ?_
+    unfold writtenReader
+    simp only [Reader.mk.injEq]
+    refine ⟨by simp, trivial, trivial, trivial, trivial, trivial, ?_, ?_, ?_, ?_, ?_, trivial⟩
+    · rw [wordsOfBytes_bytesOfWords _ hTin, typesOfWords_typeWords]
+    · rw [wordsOfBytes_bytesOfWords _ hIOin]
+    · rw [wordsOfBytes_bytesOfWords _ hDOin]
+    · simp only [Option.map_some]
+      rw [wordsOfBytes_bytesOfWords _ hSZin]; simp
+    · rw [wordsOfBytes_bytesOfWords_wrap, flatMap_itemWords_wrap items wr.words hsi]
+
+
+/-- **Round trip.**  A file written from a well-formed item list and arbitrary data blocks is
+accepted and returns exactly the items and the data that were stored. -/
+theorem roundtrip_writtenReader (ver : Nat) (deflate : List UInt8 → List UInt8)
+    (inflate : Nat → List UInt8 → Option (List UInt8)) (items : List Item) (datas : List (List UInt8))
+    (wr : Writable ver deflate items datas)
+    (hzl : ∀ x ∈ datas, inflate x.length (deflate x) = some x) :
+    ∃ r, Reader.new (writeDf ver deflate items datas) = .ok r
+      ∧ r.numItems = items.length ∧ r.numData = datas.length
+      ∧ (∀ k (hk : k < items.length), ∃ v, r.item k = .ok v ∧ v.typeId = items[k].typeId
+            ∧ v.id = items[k].id ∧ v.data = items[k].data)
+      ∧ (∀ i (hi : i < datas.length), r.readData inflate i = .ok datas[i]) := by
+  refine ⟨writtenReader ver deflate items datas, new_writeDf ver deflate items datas wr, rfl, rfl, ?_, ?_⟩
+  · intro k hk
+    obtain ⟨_, _, hitem⟩ := writtenReader_item ver deflate items datas hk
+    have hb := wr.ids items[k] (List.getElem_mem hk)
+    have ht := itemHdrR_toNat hb.1 hb.2
+    refine ⟨_, hitem, ?_, ?_, rfl⟩
+    · simp only [ht]; omega
+    · simp only [ht]; omega
+  · intro i hi
+    have hslen := storedOf_length ver deflate datas
+    have htot := wr.total
+    have hzt : (sizesOf ver deflate items datas).total ver
+        = 36 + 12 * (groupTypes items 0).length + 4 * items.length + 4 * datas.length
+          + (if ver = 3 then 0 else 4 * datas.length) + sumNat (items.map itemByteSize)
+          + sumNat ((storedOf ver deflate datas).map List.length) := rfl
+    rw [hzt] at htot
+    have hrd := readData_of_layout (r := writtenReader ver deflate items datas)
+      (storedOf ver deflate datas) inflate rfl rfl rfl
+      (by show ((sumNat ((storedOf ver deflate datas).map List.length) : Nat) : Int) ≤ 2147483647; omega)
+      (i := i) (by omega)
+    rw [hrd]
+    rcases wr.version with h | h
+    · subst h
+      have hu : (writtenReader 3 deflate items datas).uncompSizes = none := rfl
+      rw [hu]
+      simp [storedOf]
+    · subst h
+      have hu : (writtenReader 4 deflate items datas).uncompSizes
+          = some (datas.map (fun d => ((d.length : Nat) : Int))) := rfl
+      rw [hu]
+      simp only
+      rw [List.getElem?_map, List.getElem?_eq_getElem hi]
+      simp only [Option.map_some]
+      have hst : (storedOf 4 deflate datas)[i]'(by omega) = deflate datas[i] := by
+        simp [storedOf]
+      rw [hst, asUsize_nonneg (by omega)]
+      have : ((datas[i].length : Nat) : Int).toNat = datas[i].length := by omega
+      rw [this, hzl datas[i] (List.getElem_mem hi)]
+      simp
 
 
 end Tw.Datafile
